@@ -6,7 +6,7 @@ import os
 import random
 import time
 
-from . import common, gen, queryfam, c10, worldfam, c18, c09
+from . import common, gen, queryfam, c10, worldfam, c18, c09, c15
 
 TRUSTED_BASE = [
     "Lean 4.33.0 kernel (axioms limited to propext, Classical.choice, Quot.sound; audited per theorem on every run)",
@@ -88,6 +88,14 @@ class Outcome:
             path = common.write_replay(prop, self.seed, payload)
             lines.append("VIOLATION property=%s replay=%s no-failing-input-found" % (prop, path))
             total_viol += 1
+        exp_path = os.path.join(common.LEAN, "Lmd", "Audit", "expected.json")
+        if os.path.exists(exp_path) and not self.spec.get("theorems_expected"):
+            try:
+                self.spec = dict(self.spec, theorems_expected=json.load(open(exp_path)).get(prop, []))
+            except ValueError:
+                self.proof_problems.append("Lmd/Audit/expected.json is not valid JSON")
+        if not self.spec.get("theorems_expected") and not self.theorems:
+            self.proof_problems.append("no property theorem is registered for %s" % prop)
         if total_viol == 0 and (not self.lean_ok or self.proof_problems):
             payload = {"property": prop, "kind": "proof-obligation", "problems": self.proof_problems, "lean_log": self.lean_log,
                        "note": "a theorem of this property no longer checks; no explored case fails"}
@@ -99,14 +107,6 @@ class Outcome:
             q = f.get("quirk")
             if v.known_hits.get(q):
                 lines.append("KNOWN-FINDING: property=%s %s" % (prop, f.get("what", q)))
-        exp_path = os.path.join(common.LEAN, "Lmd", "Audit", "expected.json")
-        if os.path.exists(exp_path) and not self.spec.get("theorems_expected"):
-            try:
-                self.spec = dict(self.spec, theorems_expected=json.load(open(exp_path)).get(prop, []))
-            except ValueError:
-                self.proof_problems.append("Lmd/Audit/expected.json is not valid JSON")
-        if not self.spec.get("theorems_expected") and not self.theorems:
-            self.proof_problems.append("no property theorem is registered for %s" % prop)
         obligations = max(1, len(self.spec.get("theorems_expected", [])) or len(self.theorems))
         discharged = 0
         if self.lean_ok:
@@ -367,6 +367,16 @@ REGISTRY = {
                 "and the partition / offline / evenness statements are evaluated on the implementation's assignment; non-trivial = at least two backends and two online nodes",
         "correspondence": "Lmd.redistribute / quotas / handOut vs Nodes.redistribute",
         "assumptions": ["node discovery (pings over HTTP) and the distributed query path are not exercised by this check (see DESIGN.md)"],
+    },
+    "C15": {
+        "lean_modules": ["C15"],
+        "run": c15.run,
+        "rule": "worlds of 1-3 real peers wired to scripted backends in states up / down (never reachable) / rejecting (8 reply shapes incl. without colon, non-numeric code) / closing after a command / closing after k requests; "
+                "1-3 client sessions each over a real socket served by ClientConnection.Handle: 1-9 requests, COMMAND lines with 12 argument shapes (separators, unicode, tabs, 300 bytes, text that looks like a request or reply), "
+                "Backends headers (subsets, unknown ids, duplicates), KeepAlive on/off, other headers, GET sites/hosts in between, malformed requests; compared: the bytes the client read, the commands every backend received "
+                "per connection, the peer bookkeeping after the session and the next update tick (immediate refresh); non-trivial = at least two commands",
+        "correspondence": "Lmd.sessionEvents / processBatch / peerSend / sendCommands vs parseRequestsFromReader / processRequests / SendCommandsWithRetry / SendCommands / Peer.query",
+        "assumptions": ["a sender that waits for a peer in warning/pending state sleeps in real time; such scenarios run in the thorough tier only", "the client closes its write side after the last request"],
     },
     "C09": {
         "lean_modules": ["C09"],
